@@ -282,8 +282,17 @@ def train_multi_agent_on_policy(
                             )
                         )
                         if sum_scores
-                        else np.array(list(reward.values())).transpose()
+                        else None
                     )
+                    if not sum_scores:
+                        # One score column per policy group: add up the rewards of the
+                        # agents that share a policy
+                        grouped = {shared_id: 0.0 for shared_id in agent_ids}
+                        for reward_agent_id, agent_reward in reward.items():
+                            grouped[agent.get_homo_id(reward_agent_id)] = grouped[
+                                agent.get_homo_id(reward_agent_id)
+                            ] + np.asarray(agent_reward)
+                        score_increment = np.array(list(grouped.values())).transpose()
 
                     scores += score_increment
                     total_steps += num_envs
@@ -537,10 +546,11 @@ def train_multi_agent_on_policy(
                     agent: fitness_arr[:, idx] for idx, agent in enumerate(agent_ids)
                 }
                 avg_fitness = {
-                    agent: avg_fitness_arr[idx] for idx, agent in enumerate(agent_ids)
+                    agent: avg_fitness_arr[:, idx]
+                    for idx, agent in enumerate(agent_ids)
                 }
                 avg_score = {
-                    agent: avg_score_arr[idx] for idx, agent in enumerate(agent_ids)
+                    agent: avg_score_arr[:, idx] for idx, agent in enumerate(agent_ids)
                 }
                 mean_scores = {
                     agent: mean_scores[:, idx] for idx, agent in enumerate(agent_ids)
